@@ -1832,6 +1832,23 @@ func (nm *NodeMachine) CheckCrashImage(k int, before, after Snap) error {
 	if sum.Cmp(img.State.GetTotal()) != 0 {
 		return fmt.Errorf("conservation broken after restart: sum(U)+pending fees=%s, GetTotal=%s", sum, img.State.GetTotal())
 	}
+	// irreversible height (slide window > 0): what the image persists is a value of a consistent moment - never below
+	// the value before the in-flight operation (explicit pruning aside), never above the value after it, and never
+	// ahead of the blocks the persisted state has applied (max(before, height(pointer) - window))
+	if nm.Window > 0 && before.Irrev <= after.Irrev && !strings.HasPrefix(after.Op, "truncate") && !strings.Contains(after.Op, "prune") {
+		got := img.State.GetMeta().IrreversibleBlockHeight
+		cap := before.Irrev
+		if hp := src.Blocks[ptr].Height - nm.Window; hp > cap {
+			cap = hp
+		}
+		if cap > after.Irrev {
+			cap = after.Irrev
+		}
+		if got < before.Irrev || got > cap {
+			return fmt.Errorf("persisted irreversible height is %d with the state at %s (height %d, window %d): it was %d before the in-flight operation and is %d after it - a consistent moment has a value in [%d, %d]",
+				got, src.Blocks[ptr].Label, src.Blocks[ptr].Height, nm.Window, before.Irrev, after.Irrev, before.Irrev, cap)
+		}
+	}
 	// synchronising the state to the ledger tip reaches the state of an uninterrupted run
 	tip := lm.Tip
 	expectOK := true
